@@ -118,12 +118,14 @@ package responder
 //@   requires c.writer != nil && 100 <= status && status <= 999 && httpwrites(c.writer) == 0
 //@   ensures [C08,C16] specEffStatus(c.writer) == status
 
-//@ props C08 C16
+//@ props C08 C16 C07
 //@ func HTTPResponder.WriteError
 //@   nopanic
-//@   assigns ghost:httpstatus ghost:httpwrites
+//@   assigns map_ ghost:httpstatus ghost:httpwrites
 //@   requires c.writer != nil && 100 <= errorCode && errorCode <= 999 && httpwrites(c.writer) == 0
 //@   ensures [C08,C16] specEffStatus(c.writer) == errorCode
+// The 416 keeps the Content-Range the proxy staged for it ("bytes */size").
+//@   ensures [C07] in(rwheader(c.writer), "Content-Range") == old(in(rwheader(c.writer), "Content-Range")) && (in(rwheader(c.writer), "Content-Range") ==> len(rwheader(c.writer)["Content-Range"]) == old(len(rwheader(c.writer)["Content-Range"])) && sid(rwheader(c.writer)["Content-Range"][0]) == old(sid(rwheader(c.writer)["Content-Range"][0])))
 
 //@ props C08 C10 C16
 //@ func HTTPResponder.AddHeader
